@@ -42,6 +42,8 @@ trait Pay: Copy + core::fmt::Debug + 'static {
     const NAME: &'static str;
     /// i-th value of the family selected by `salt` (same unit / derivative for all i, distinct bits)
     fn make(salt: u32, i: usize) -> Self;
+    /// payload whose numeric content is exactly `v` (unit / derivative from `salt`)
+    fn from_val(salt: u32, v: f32) -> Self;
     /// bit-identical
     fn ident(&self, o: &Self) -> bool;
 }
@@ -49,6 +51,9 @@ impl Pay for f32 {
     const NAME: &'static str = "f32";
     fn make(salt: u32, i: usize) -> Self {
         val(salt, i)
+    }
+    fn from_val(_salt: u32, v: f32) -> Self {
+        v
     }
     fn ident(&self, o: &Self) -> bool {
         self.to_bits() == o.to_bits()
@@ -59,6 +64,9 @@ impl Pay for Quantity {
     fn make(salt: u32, i: usize) -> Self {
         Quantity::new(val(salt, i), unit_of(salt))
     }
+    fn from_val(salt: u32, v: f32) -> Self {
+        Quantity::new(v, unit_of(salt))
+    }
     fn ident(&self, o: &Self) -> bool {
         self.value.to_bits() == o.value.to_bits() && self.unit == o.unit
     }
@@ -68,6 +76,13 @@ impl Pay for State {
     fn make(salt: u32, i: usize) -> Self {
         let v = val(salt, i);
         State::new_raw(v, v + 1024.0, v - 1024.0)
+    }
+    fn from_val(salt: u32, v: f32) -> Self {
+        if salt & 2 == 0 {
+            State::new_raw(v, v, v)
+        } else {
+            State::new_raw(v, v * 2.0, -v)
+        }
     }
     fn ident(&self, o: &Self) -> bool {
         self.position.to_bits() == o.position.to_bits()
@@ -80,6 +95,9 @@ impl Pay for Command {
     fn make(salt: u32, i: usize) -> Self {
         Command::new(pd_of(salt), val(salt, i))
     }
+    fn from_val(salt: u32, v: f32) -> Self {
+        Command::new(pd_of(salt), v)
+    }
     fn ident(&self, o: &Self) -> bool {
         PositionDerivative::from(*self) == PositionDerivative::from(*o) && f32::from(*self).to_bits() == f32::from(*o).to_bits()
     }
@@ -89,8 +107,73 @@ impl Pay for bool {
     fn make(salt: u32, i: usize) -> Self {
         (i + (salt & 1) as usize) % 2 == 0
     }
+    fn from_val(_salt: u32, v: f32) -> Self {
+        v != 0.0
+    }
     fn ident(&self, o: &Self) -> bool {
         self == o
+    }
+}
+/// Values that fast paths / early returns typically key on (neutral elements, zero, sign).
+const SPECIAL: [f32; 6] = [0.0, -0.0, 1.0, -1.0, 2.0, 0.5];
+fn vclass(v: f32) -> &'static str {
+    if v.to_bits() == 0 {
+        "+0"
+    } else if v == 0.0 {
+        "-0"
+    } else if v == 1.0 {
+        "1"
+    } else if v == -1.0 {
+        "-1"
+    } else if v == 2.0 {
+        "2"
+    } else if v == 0.5 {
+        "0.5"
+    } else {
+        "other"
+    }
+}
+/// Operand values of one operator case: lhs payload value, rhs payload value (Datum<T> / T rhs), f32 rhs of
+/// the State / Command special forms.
+#[derive(Clone, Copy, Debug)]
+struct Vals {
+    a: f32,
+    b: f32,
+    k: f32,
+}
+impl Vals {
+    /// enumerated: rhs = SPECIAL[ri] (ri < 6) or a random family value (ri == 6); lhs mode 0 = random
+    /// family value, 1 = bit-equal to rhs, 2 = a special value; the f32 rhs equals the rhs value.
+    fn enumerated(rng: &mut Rng, salt: u32, ri: usize, lmode: usize) -> Vals {
+        let b = if ri < 6 { SPECIAL[ri] } else { val(salt, 1) };
+        let a = match lmode {
+            0 => val(salt, 0),
+            1 => b,
+            _ => *rng.pick(&SPECIAL),
+        };
+        Vals { a, b, k: b }
+    }
+    fn random(rng: &mut Rng, salt: u32) -> Vals {
+        let b = match rng.below(20) {
+            0..=5 => *rng.pick(&SPECIAL),
+            6..=8 => rng.special(),
+            9..=10 => *rng.pick(&[0.0f32, 1.0]),
+            _ => val(salt, 1),
+        };
+        let a = match rng.below(10) {
+            0..=1 => b,
+            2..=4 => *rng.pick(&SPECIAL),
+            _ => val(salt, 0),
+        };
+        let k = match rng.below(4) {
+            0..=1 => b,
+            2 => *rng.pick(&SPECIAL),
+            _ => val(salt.rotate_left(11), 2),
+        };
+        Vals { a, b, k }
+    }
+    fn key(&self) -> (&'static str, &'static str, &'static str) {
+        (if self.a.to_bits() == self.b.to_bits() { "lhs=rhs" } else { vclass(self.a) }, vclass(self.b), vclass(self.k))
     }
 }
 fn dident<P: Pay>(a: &Datum<P>, b: &Datum<P>) -> bool {
@@ -226,6 +309,8 @@ struct Ctx<'a> {
     rep: &'a mut Report,
     sub: &'static str,
     case: u64,
+    /// value classes of the operands of the current operator case (part of the distinct key)
+    vkey: (&'static str, &'static str, &'static str),
 }
 type TimeOut = Result<Result<Option<i64>, Error<E>>, String>;
 impl Ctx<'_> {
@@ -240,10 +325,12 @@ impl Ctx<'_> {
             Some(r) => {
                 self.rep.tally("datum_ops_binary");
                 self.rep.distinct(("op", form, pay, stratum(tl), stratum(r), rel(tl, r)));
+                self.rep.distinct(("opv", form, pay, rel(tl, r), self.vkey));
             }
             None => {
                 self.rep.tally("datum_ops_scalar_or_unary");
                 self.rep.distinct(("op1", form, pay, stratum(tl)));
+                self.rep.distinct(("op1v", form, pay, self.vkey));
             }
         }
         match got {
@@ -252,7 +339,7 @@ impl Ctx<'_> {
                 &format!("C03/datum-op/{}/{}", form, pay),
                 self.sub,
                 self.case,
-                format!("Datum<{}> {}: lhs time {} rhs {:?} -> result time {}, expected {}", pay, form, tl, tr, t, exp),
+                format!("Datum<{}> {}: lhs time {} rhs {:?} -> result time {}, expected {}; operand value classes (lhs, rhs, f32 rhs) {:?}", pay, form, tl, tr, t, exp, self.vkey),
             ),
             Err(m) => self.rep.violation(
                 &format!("C03/unexpected-panic/datum-op/{}/{}", form, pay),
@@ -374,34 +461,34 @@ macro_rules! multiplicative {
 /// Every operator impl of src/datum.rs for every payload it type-checks with. `bin`: the forms with
 /// a Datum rhs (two stamps); `una`: the scalar and unary forms (one stamp, `tl`).
 /// 32 binary (form x payload) cells and 37 one-stamp cells (69 in all).
-fn datum_ops(ctx: &mut Ctx, bin: bool, una: bool, tl: i64, tr: i64, salt: u32) {
-    let k: f32 = val(salt.rotate_left(11), 2);
+fn datum_ops(ctx: &mut Ctx, bin: bool, una: bool, tl: i64, tr: i64, salt: u32, v: Vals) {
+    ctx.vkey = v.key();
     {
-        let (a, b) = (<f32 as Pay>::make(salt, 0), <f32 as Pay>::make(salt, 1));
-        additive!(ctx, "f32", bin, una, tl, tr, a, b);
-        multiplicative!(ctx, "f32", "", bin, una, tl, tr, a, b);
+        additive!(ctx, "f32", bin, una, tl, tr, v.a, v.b);
+        multiplicative!(ctx, "f32", "", bin, una, tl, tr, v.a, v.b);
     }
     {
-        let (a, b) = (<Quantity as Pay>::make(salt, 0), <Quantity as Pay>::make(salt, 1));
+        let (a, b) = (<Quantity as Pay>::from_val(salt, v.a), <Quantity as Pay>::from_val(salt, v.b));
         additive!(ctx, "Quantity", bin, una, tl, tr, a, b);
         // multiplication / division may mix units
-        let b2 = Quantity::new(val(salt, 1), unit_of(salt.rotate_left(9)));
+        let b2 = Quantity::new(v.b, unit_of(salt.rotate_left(9)));
         multiplicative!(ctx, "Quantity", "", bin, una, tl, tr, a, b2);
     }
     {
-        let (a, b) = (<State as Pay>::make(salt, 0), <State as Pay>::make(salt, 1));
+        let (a, b) = (<State as Pay>::from_val(salt, v.a), <State as Pay>::from_val(salt, v.b));
         additive!(ctx, "State", bin, una, tl, tr, a, b);
-        multiplicative!(ctx, "State", "<f32>", bin, una, tl, tr, a, k);
+        multiplicative!(ctx, "State", "<f32>", bin, una, tl, tr, a, v.k);
     }
     {
-        let (a, b) = (<Command as Pay>::make(salt, 0), <Command as Pay>::make(salt, 1));
+        let (a, b) = (<Command as Pay>::from_val(salt, v.a), <Command as Pay>::from_val(salt, v.b));
         additive!(ctx, "Command", bin, una, tl, tr, a, b);
-        multiplicative!(ctx, "Command", "<f32>", bin, una, tl, tr, a, k);
+        multiplicative!(ctx, "Command", "<f32>", bin, una, tl, tr, a, v.k);
     }
     if una {
-        let x = Datum::new(Time(tl), <bool as Pay>::make(salt, 0));
+        let x = Datum::new(Time(tl), <bool as Pay>::from_val(salt, v.a));
         ctx.op("Not", "bool", tl, None, catch(|| (!x).time.0));
     }
+    ctx.vkey = ("", "", "");
 }
 
 // ------------------------------------------------------------------------------------------------
@@ -539,12 +626,17 @@ fn prod_get<P: Pay + MulAssign>(evs: &[Ev<P>]) -> Result<Output<P, E>, String> {
     }
 }
 /// Input events of a rank pattern: digit 0 = absent, digit k>0 = present with stamp `stamps[k-1]`.
-fn pattern_events<P: Pay>(n: usize, mut pat: u64, stamps: &[i64], salt: u32) -> Vec<Ev<P>> {
+fn pattern_events<P: Pay>(n: usize, pat: u64, stamps: &[i64], salt: u32) -> Vec<Ev<P>> {
+    pattern_events_v(n, pat, stamps, salt, false)
+}
+/// `special`: payload values from the SPECIAL pool (repeats allowed) instead of the distinct family.
+fn pattern_events_v<P: Pay>(n: usize, mut pat: u64, stamps: &[i64], salt: u32, special: bool) -> Vec<Ev<P>> {
     let mut evs = Vec::with_capacity(n);
     for i in 0..n {
         let d = (pat % (n as u64 + 1)) as usize;
         pat /= n as u64 + 1;
-        evs.push(if d == 0 { Ev::None } else { Ev::Some(stamps[d - 1], P::make(salt, i)) });
+        let v = if special { P::from_val(salt, SPECIAL[((salt >> (5 + 3 * i)) % 6) as usize]) } else { P::make(salt, i) };
+        evs.push(if d == 0 { Ev::None } else { Ev::Some(stamps[d - 1], v) });
     }
     evs
 }
@@ -592,6 +684,7 @@ fn two_in<P: Pay, S: Getter<P, E>>(ctx: &mut Ctx, site: &'static str, e1: &Ev<P>
     let got = catch(|| st.get());
     let evs = [*e1, *e2];
     ctx.rep.distinct((site, P::NAME, shape(&evs), stratum_of(e1), stratum_of(e2)));
+    ctx.rep.distinct((site, P::NAME, shape(&evs), ctx.vkey));
     ctx.combined(site, P::NAME, &present_stamps(&evs), times(got), &|| format!("inputs {:?}", evs));
 }
 fn stratum_of<P>(e: &Ev<P>) -> &'static str {
@@ -600,24 +693,25 @@ fn stratum_of<P>(e: &Ev<P>) -> &'static str {
         _ => "-",
     }
 }
-fn ev2<P: Pay>(pres: u64, tl: i64, tr: i64, salt: u32) -> (Ev<P>, Ev<P>) {
+fn ev2<P: Pay>(pres: u64, tl: i64, tr: i64, salt: u32, v: Vals) -> (Ev<P>, Ev<P>) {
     (
-        if pres & 1 != 0 { Ev::Some(tl, P::make(salt, 0)) } else { Ev::None },
-        if pres & 2 != 0 { Ev::Some(tr, P::make(salt, 1)) } else { Ev::None },
+        if pres & 1 != 0 { Ev::Some(tl, P::from_val(salt, v.a)) } else { Ev::None },
+        if pres & 2 != 0 { Ev::Some(tr, P::from_val(salt, v.b)) } else { Ev::None },
     )
 }
 /// Every two-input arithmetic / logic stream on one (presence, stamp pair).
-fn two_input_streams(ctx: &mut Ctx, pres: u64, tl: i64, tr: i64, salt: u32) {
+fn two_input_streams(ctx: &mut Ctx, pres: u64, tl: i64, tr: i64, salt: u32, v: Vals) {
+    ctx.vkey = v.key();
     macro_rules! addsub {
         ($P:ty) => {{
-            let (a, b) = ev2::<$P>(pres, tl, tr, salt);
+            let (a, b) = ev2::<$P>(pres, tl, tr, salt, v);
             two_in::<$P, _>(ctx, "Sum2", &a, &b, |x, y| Sum2::new(x, y));
             two_in::<$P, _>(ctx, "DifferenceStream", &a, &b, |x, y| DifferenceStream::new(x, y));
         }};
     }
     macro_rules! muldiv {
         ($P:ty) => {{
-            let (a, b) = ev2::<$P>(pres, tl, tr, salt);
+            let (a, b) = ev2::<$P>(pres, tl, tr, salt, v);
             two_in::<$P, _>(ctx, "Product2", &a, &b, |x, y| Product2::new(x, y));
             two_in::<$P, _>(ctx, "QuotientStream", &a, &b, |x, y| QuotientStream::new(x, y));
         }};
@@ -629,7 +723,7 @@ fn two_input_streams(ctx: &mut Ctx, pres: u64, tl: i64, tr: i64, salt: u32) {
     muldiv!(f32);
     muldiv!(Quantity);
     {
-        let (a, b) = ev2::<f32>(pres, tl, tr, salt);
+        let (a, b) = ev2::<f32>(pres, tl, tr, salt, v);
         two_in::<f32, _>(ctx, "ExponentStream", &a, &b, |x, y| ExponentStream::new(x, y));
     }
     // logic: all four value combinations
@@ -649,6 +743,7 @@ fn two_input_streams(ctx: &mut Ctx, pres: u64, tl: i64, tr: i64, salt: u32) {
         ctx.rep.distinct(("NotStream", stratum_of(&a)));
         ctx.combined("NotStream", "bool", &present_stamps(&[a]), times(got), &|| format!("input {:?}", a));
     }
+    ctx.vkey = ("", "", "");
 }
 
 // ------------------------------------------------------------------------------------------------
@@ -691,13 +786,6 @@ impl TS {
             v.extend(self.par_c);
         }
         v
-    }
-    /// stamp a state read of this terminal carries per the statement (max of present parts)
-    fn read_s(&self) -> Option<i64> {
-        self.state_parts().iter().map(|d| d.time.0).max()
-    }
-    fn read_c(&self) -> Option<i64> {
-        self.command_parts().iter().map(|d| d.time.0).max()
     }
 }
 fn load<'a>(terms: &[&'a Term<'a>], ext: &'a [Term<'a>], spec: &[TS]) {
@@ -809,17 +897,79 @@ fn kind_terms(kind: usize) -> usize {
         _ => 3,
     }
 }
-type DevRun = (Vec<Snap>, Result<NothingOrError<E>, String>, Vec<Snap>);
-/// Build the device and six external terminals in one scope, load the scenario, update once.
-fn run_device(kind: usize, spec: &[TS], ratio: f32) -> DevRun {
+/// One write the harness performs on a terminal slot before an update.
+#[derive(Clone, Copy, Debug)]
+enum Op {
+    S { k: usize, ext: bool, d: Datum<State> },
+    C { k: usize, ext: bool, d: Datum<Command> },
+}
+fn wire<'a>(terms: &[&'a Term<'a>], ext: &'a [Term<'a>], conn: &[bool]) {
+    for k in 0..terms.len() {
+        if conn[k] {
+            connect(terms[k], &ext[k]);
+        }
+    }
+}
+fn apply<'a>(terms: &[&'a Term<'a>], ext: &'a [Term<'a>], extm: &mut [Snap], ops: &[Op]) {
+    for op in ops {
+        match *op {
+            Op::S { k, ext: false, d } => set_state(terms[k], d),
+            Op::S { k, ext: true, d } => {
+                set_state(&ext[k], d);
+                extm[k].0 = Some(d);
+            }
+            Op::C { k, ext: false, d } => set_command(terms[k], d),
+            Op::C { k, ext: true, d } => {
+                set_command(&ext[k], d);
+                extm[k].1 = Some(d);
+            }
+        }
+    }
+}
+/// What `Getter<State>` of each own terminal returns (observation only; used for coverage tallies).
+fn reads_of(terms: &[&Term<'_>]) -> Vec<Option<Datum<State>>> {
+    terms.iter().map(|t| catch(|| <Terminal<E> as Getter<State, E>>::get(&t.borrow())).ok().and_then(|r| r.ok()).flatten()).collect()
+}
+/// Everything observed around one `update()` of a device.
+struct RoundObs<'x> {
+    round: usize,
+    ops: &'x [Op],
+    /// own slots just before the update (after the harness' writes of this round)
+    before: &'x [Snap],
+    /// last data written to the external terminal facing each own terminal
+    ext: &'x [Snap],
+    reads: &'x [Option<Datum<State>>],
+    res: &'x Result<NothingOrError<E>, String>,
+    after: &'x [Snap],
+}
+/// Build the device and six external terminals in one scope, connect per `conn`, then for each
+/// round: ask `driver` for the writes (it sees the current own and external slots), apply them,
+/// `update()` once, hand the observation to `observer` (false = stop the history).
+fn run_history(
+    kind: usize,
+    conn: &[bool],
+    ratio: f32,
+    rounds: usize,
+    driver: &mut dyn FnMut(usize, &[Snap], &[Snap]) -> Vec<Op>,
+    observer: &mut dyn FnMut(&RoundObs) -> bool,
+) {
     macro_rules! go {
         ($ext:ident, $dev:ident, $terms:expr) => {{
             let terms: Vec<&Term<'_>> = $terms;
-            load(&terms, &$ext, spec);
-            let before = snap(&terms);
-            let res = catch(|| $dev.update());
-            let after = snap(&terms);
-            (before, res, after)
+            wire(&terms, &$ext, conn);
+            let mut extm: Vec<Snap> = vec![(None, None); terms.len()];
+            for round in 0..rounds {
+                let own0 = snap(&terms);
+                let ops = driver(round, &own0, &extm);
+                apply(&terms, &$ext, &mut extm, &ops);
+                let before = snap(&terms);
+                let reads = reads_of(&terms);
+                let res = catch(|| $dev.update());
+                let after = snap(&terms);
+                if !observer(&RoundObs { round, ops: &ops, before: &before, ext: &extm, reads: &reads, res: &res, after: &after }) {
+                    break;
+                }
+            }
         }};
     }
     macro_rules! axle {
@@ -887,21 +1037,59 @@ fn expected_state(kind: usize, r: &[Option<i64>]) -> Vec<Option<i64>> {
         _ => vec![all_max(r); 3],
     }
 }
-fn device_case(ctx: &mut Ctx, kind: usize, spec: &[TS], ratio: f32) {
+/// Do the state reads already satisfy the device's constraint *exactly* (nothing to reconcile)?
+fn reads_consistent(kind: usize, ratio: f32, reads: &[Option<Datum<State>>]) -> bool {
+    let v: Vec<Option<State>> = reads.iter().map(|r| r.map(|d| d.value)).collect();
+    match kind {
+        0 => matches!((v[0], v[1]), (Some(a), Some(b)) if a == -b),
+        1 => matches!((v[0], v[1]), (Some(a), Some(b)) if b == a * ratio),
+        2..=7 => v.len() >= 2 && v.iter().all(|x| x.is_some() && *x == v[0]),
+        _ => matches!((v[0], v[1], v[2]), (Some(a), Some(b), Some(c)) if a + b == c),
+    }
+}
+const EXTREME: [i64; 4] = [i64::MIN, i64::MIN + 1, i64::MAX - 1, i64::MAX];
+/// Check one observed update of a device against "newest contributing read stamp". Returns false if
+/// something was flagged (the history is then abandoned so one defect is not counted many times).
+fn check_round(ctx: &mut Ctx, kind: usize, conn: &[bool], ratio: f32, template: &'static str, o: &RoundObs) -> bool {
     let name = KINDS[kind];
-    let n = spec.len();
-    let rs: Vec<Option<i64>> = spec.iter().map(|s| s.read_s()).collect();
-    let rc: Vec<Option<i64>> = spec.iter().map(|s| s.read_c()).collect();
-    let (before, res, after) = run_device(kind, spec, ratio);
-    let det = || format!("{} ratio {} scenario {:?}; own slots before {:?}; update -> {:?}; own slots after {:?}", name, ratio, spec, before, res, after);
-    // distinct: kind, which reads are present, which read is newest, tie for newest?
+    let n = conn.len();
+    let v0 = ctx.rep.violation_count;
+    let stamp_s = |k: usize| -> Option<i64> {
+        let mut v: Vec<i64> = o.before[k].0.iter().map(|d| d.time.0).collect();
+        if conn[k] {
+            v.extend(o.ext[k].0.iter().map(|d| d.time.0));
+        }
+        v.into_iter().max()
+    };
+    let stamp_c = |k: usize| -> Option<i64> {
+        let mut v: Vec<i64> = o.before[k].1.iter().map(|d| d.time.0).collect();
+        if conn[k] {
+            v.extend(o.ext[k].1.iter().map(|d| d.time.0));
+        }
+        v.into_iter().max()
+    };
+    // state / command read stamps per the statement: newest of the present own / partner parts
+    let rs: Vec<Option<i64>> = (0..n).map(stamp_s).collect();
+    let rc: Vec<Option<i64>> = (0..n).map(stamp_c).collect();
+    let det = || format!("{} ratio {} connected {:?} template {} round {}: writes of this round {:?}; own slots before update {:?}; external slots {:?}; update -> {:?}; own slots after {:?}", name, ratio, conn, template, o.round, o.ops, o.before, o.ext, o.res, o.after);
     let newest = rs.iter().flatten().cloned().max();
     let arg: Vec<usize> = (0..n).filter(|&k| rs[k].is_some() && rs[k] == newest).collect();
-    ctx.rep.distinct(("device", kind, rs.iter().map(|x| x.is_some()).collect::<Vec<_>>(), arg.clone(), rc.iter().map(|x| x.is_some()).collect::<Vec<_>>()));
-    if let Err(m) = &res {
+    ctx.rep.distinct(("device", kind, template, o.round.min(3), rs.iter().map(|x| x.is_some()).collect::<Vec<_>>(), arg, rc.iter().map(|x| x.is_some()).collect::<Vec<_>>(), newest.map(stratum)));
+    ctx.rep.tally(&format!("device_updates_checked/round{}", o.round.min(3)));
+    // coverage: situations the seeded changes of round 2 live in
+    let present: Vec<i64> = rs.iter().flatten().cloned().collect();
+    if !present.is_empty() && present.iter().all(|t| *t == present[0]) && EXTREME.contains(&present[0]) {
+        ctx.rep.tally("device_all_contributors_same_extreme_stamp");
+        ctx.rep.tally(&format!("device_all_contributors_same_extreme_stamp/{}", name));
+    }
+    if present.iter().any(|t| *t != present[0]) && reads_consistent(kind, ratio, o.reads) {
+        ctx.rep.tally("device_reads_exactly_consistent_with_different_stamps");
+        ctx.rep.tally(&format!("device_reads_exactly_consistent_with_different_stamps/{}", name));
+    }
+    if let Err(m) = o.res {
         ctx.rep.eval();
         ctx.rep.violation(&format!("C03/unexpected-panic/device/{}", name), ctx.sub, ctx.case, format!("update panicked: {}; {}", m, det()));
-        return;
+        return false;
     }
     // ---- states
     let exp = expected_state(kind, &rs);
@@ -912,11 +1100,10 @@ fn device_case(ctx: &mut Ctx, kind: usize, spec: &[TS], ratio: f32) {
                 ctx.rep.eval();
                 ctx.rep.tally("device_state_writes_checked");
                 ctx.rep.tally(&format!("device_state_writes_checked/{}", name));
-                let one_sided = rs.iter().filter(|x| x.is_some()).count() == 1;
-                if one_sided {
+                if rs.iter().filter(|x| x.is_some()).count() == 1 {
                     ctx.rep.tally("device_state_one_sided_propagation");
                 }
-                match after[k].0 {
+                match o.after[k].0 {
                     Some(d) if d.time.0 == t => {}
                     other => ctx.rep.violation(
                         &format!("C03/device-state-time/{}", name),
@@ -934,7 +1121,7 @@ fn device_case(ctx: &mut Ctx, kind: usize, spec: &[TS], ratio: f32) {
     // slot that changed carries the newest command stamp.
     let newest_c = rc.iter().flatten().cloned().max();
     for k in 0..n {
-        let changed = match (&before[k].1, &after[k].1) {
+        let changed = match (&o.before[k].1, &o.after[k].1) {
             (None, None) => false,
             (Some(a), Some(b)) => !dident(a, b),
             _ => true,
@@ -945,90 +1132,366 @@ fn device_case(ctx: &mut Ctx, kind: usize, spec: &[TS], ratio: f32) {
         ctx.rep.eval();
         ctx.rep.tally("device_command_writes_checked");
         ctx.rep.tally(&format!("device_command_writes_checked/{}", name));
-        let ok = match (after[k].1, newest_c) {
+        let ok = match (o.after[k].1, newest_c) {
             (Some(d), Some(m)) => d.time.0 == m,
             _ => false,
         };
         if !ok {
-            ctx.rep.violation(&format!("C03/device-command-time/{}", name), ctx.sub, ctx.case, format!("terminal #{} own command changed to {:?} during update; the newest command read has stamp {:?} (command reads {:?}); {}", k, after[k].1, newest_c, rc, det()));
+            ctx.rep.violation(&format!("C03/device-command-time/{}", name), ctx.sub, ctx.case, format!("terminal #{} own command changed to {:?} during update; the newest command read has stamp {:?} (command reads {:?}); {}", k, o.after[k].1, newest_c, rc, det()));
+        }
+    }
+    ctx.rep.violation_count == v0
+}
+fn spec_ops(spec: &[TS]) -> Vec<Op> {
+    let mut ops = Vec::new();
+    for (k, s) in spec.iter().enumerate() {
+        if let Some(d) = s.own_s {
+            ops.push(Op::S { k, ext: false, d });
+        }
+        if let Some(d) = s.par_s {
+            ops.push(Op::S { k, ext: true, d });
+        }
+        if let Some(d) = s.own_c {
+            ops.push(Op::C { k, ext: false, d });
+        }
+        if let Some(d) = s.par_c {
+            ops.push(Op::C { k, ext: true, d });
+        }
+    }
+    ops
+}
+/// One update of a device on a prepared scenario.
+fn device_case(ctx: &mut Ctx, kind: usize, spec: &[TS], ratio: f32, template: &'static str) {
+    let conn: Vec<bool> = spec.iter().map(|s| s.conn).collect();
+    let ops = spec_ops(spec);
+    run_history(kind, &conn, ratio, 1, &mut |_, _, _| ops.clone(), &mut |o| check_round(ctx, kind, &conn, ratio, template, o));
+}
+fn shuffle<T>(rng: &mut Rng, v: &mut [T]) {
+    for i in (1..v.len()).rev() {
+        let j = rng.usize(i + 1);
+        v.swap(i, j);
+    }
+}
+/// `m` stamps for the slots of a scenario. Only comparisons are ever made on them, so the extreme
+/// strata are included: distinct (moderate or any magnitude), all equal to one anchor ("every
+/// contributor carries the same extreme stamp"), or drawn from a cluster of 2-3 neighbouring
+/// extreme values (many ties and adjacencies at the boundary).
+fn slot_stamps(rng: &mut Rng, m: usize) -> Vec<i64> {
+    match rng.below(10) {
+        0..=2 => {
+            let mut v = ladder(rng, m, draw_mod);
+            shuffle(rng, &mut v);
+            v
+        }
+        3..=5 => {
+            let mut v = ladder(rng, m, draw_any);
+            shuffle(rng, &mut v);
+            if rng.chance(0.3) {
+                let (i, j) = (rng.usize(m), rng.usize(m));
+                v[i] = v[j];
+            }
+            v
+        }
+        6..=7 => vec![*rng.pick(&ANCHORS); m],
+        _ => {
+            let cluster: &[i64] = match rng.below(4) {
+                0 => &[i64::MIN, i64::MIN + 1, i64::MIN + 2],
+                1 => &[i64::MAX - 2, i64::MAX - 1, i64::MAX],
+                2 => &[-B62 - 1, -B62, -B62 + 1],
+                _ => &[B62 - 1, B62, B62 + 1],
+            };
+            (0..m).map(|_| *rng.pick(cluster)).collect()
         }
     }
 }
-/// Random scenario for `n` terminals: distinct moderate stamps on every slot (own/partner x
-/// state/command), occasionally a tie; presence of the state slots driven by `mask` (2 bits per
-/// terminal) so that small devices see every presence combination.
+/// small-integer state (exact arithmetic in the devices)
+fn ist(rng: &mut Rng) -> State {
+    State::new_raw(rng.range_i64(-8, 8) as f32, rng.range_i64(-8, 8) as f32, rng.range_i64(-8, 8) as f32)
+}
+/// Random scenario for `n` terminals; presence of the state slots driven by `mask` (2 bits per
+/// terminal) so that small devices see every presence combination. Values: distinct family, or
+/// small integers with own == partner on some terminals (the terminal average is then exact).
 fn scenario(rng: &mut Rng, n: usize, mask: u64) -> Vec<TS> {
-    let mut stamps = ladder(rng, 4 * n, draw_mod);
-    for i in (1..stamps.len()).rev() {
-        let j = rng.usize(i + 1);
-        stamps.swap(i, j);
-    }
-    if rng.chance(0.15) {
-        let (i, j) = (rng.usize(4 * n), rng.usize(4 * n));
-        stamps[i] = stamps[j];
-    }
+    let stamps = slot_stamps(rng, 4 * n);
     let salt = rng.next_u64() as u32;
+    let ints = rng.chance(0.4);
     (0..n)
         .map(|k| {
             let own = mask >> (2 * k) & 1 != 0;
             let par = mask >> (2 * k + 1) & 1 != 0;
+            let (vo, vp) = if ints {
+                let a = ist(rng);
+                let b = match rng.below(3) {
+                    0 => a,
+                    1 => -a,
+                    _ => ist(rng),
+                };
+                (a, b)
+            } else {
+                (State::make(salt, 2 * k), State::make(salt, 2 * k + 1))
+            };
             TS {
                 conn: par || rng.chance(0.5),
-                own_s: if own { Some(Datum::new(Time(stamps[4 * k]), State::make(salt, 2 * k))) } else { None },
-                par_s: if par { Some(Datum::new(Time(stamps[4 * k + 1]), State::make(salt, 2 * k + 1))) } else { None },
+                own_s: if own { Some(Datum::new(Time(stamps[4 * k]), vo)) } else { None },
+                par_s: if par { Some(Datum::new(Time(stamps[4 * k + 1]), vp)) } else { None },
                 own_c: if rng.chance(0.5) { Some(Datum::new(Time(stamps[4 * k + 2]), Command::make(salt, 2 * k))) } else { None },
                 par_c: if rng.chance(0.5) { Some(Datum::new(Time(stamps[4 * k + 3]), Command::make(salt, 2 * k + 1))) } else { None },
             }
         })
         .collect()
 }
+/// Generator of multi-round device histories. Round 0 sets up a situation from a template; later
+/// rounds re-issue bit-identical values, values copied from the other side of a connection, or the
+/// exact constraint image of another terminal's value (negation for Invert, x*ratio / x/ratio for
+/// GearTrain, the same value for Axle, side1+side2 / sum-side for Differential), mostly with a stamp
+/// newer than everything so far and on one slot only.
+struct Hist {
+    kind: usize,
+    n: usize,
+    ratio: f32,
+    conn: Vec<bool>,
+    /// strictly increasing stamps; `next` = first unused
+    lad: Vec<i64>,
+    next: usize,
+    template: usize,
+    pd: PositionDerivative,
+}
+const TEMPLATES: [&str; 4] = ["single-source", "random-ints", "uniform-stamp", "consistent-start"];
+impl Hist {
+    fn new(rng: &mut Rng, kind: usize, rounds: usize) -> Hist {
+        let n = kind_terms(kind);
+        let draw: fn(&mut Rng) -> i64 = if rng.chance(0.5) { draw_any } else { draw_mod };
+        let lad = ladder(rng, 4 * n + 2 + rounds * (n + 4), draw);
+        Hist {
+            kind,
+            n,
+            ratio: *rng.pick(&[1.0f32, -1.0, 2.0, 0.5]),
+            conn: (0..n).map(|_| rng.chance(0.7)).collect(),
+            lad,
+            next: 0,
+            template: rng.usize(4),
+            pd: pd_of(rng.next_u64() as u32),
+        }
+    }
+    /// mostly the next unused (newest so far) stamp, sometimes an already used one
+    fn stamp(&mut self, rng: &mut Rng) -> Time {
+        if self.next > 0 && rng.chance(0.12) {
+            return Time(self.lad[rng.usize(self.next)]);
+        }
+        let t = self.lad[self.next];
+        if self.next + 1 < self.lad.len() {
+            self.next += 1;
+        }
+        Time(t)
+    }
+    fn side(&self, rng: &mut Rng, k: usize) -> bool {
+        self.conn[k] && rng.chance(0.6)
+    }
+    /// exact image on terminal `dst` of the current values `v` under the device's constraint
+    fn image(&self, src: usize, dst: usize, v: &[Option<State>]) -> Option<State> {
+        match self.kind {
+            0 => v[src].map(|x| -x),
+            1 => v[src].map(|x| if src == 0 { x * self.ratio } else { x / self.ratio }),
+            2..=7 => v[src],
+            _ => match dst {
+                2 => Some(v[0]? + v[1]?),
+                0 => Some(v[2]? - v[1]?),
+                _ => Some(v[2]? - v[0]?),
+            },
+        }
+    }
+    fn ops(&mut self, rng: &mut Rng, round: usize, own: &[Snap], ext: &[Snap]) -> Vec<Op> {
+        let n = self.n;
+        let mut ops = Vec::new();
+        if round == 0 {
+            match self.template {
+                0 => {
+                    let k = rng.usize(n);
+                    let e = self.side(rng, k);
+                    ops.push(Op::S { k, ext: e, d: Datum::new(self.stamp(rng), ist(rng)) });
+                    if rng.chance(0.5) {
+                        let e = self.side(rng, k);
+                        ops.push(Op::C { k, ext: e, d: Datum::new(self.stamp(rng), Command::new(self.pd, rng.range_i64(-8, 8) as f32)) });
+                    }
+                }
+                1 => {
+                    let mut st: Vec<Time> = (0..4 * n).map(|_| self.stamp(rng)).collect();
+                    shuffle(rng, &mut st);
+                    for k in 0..n {
+                        if rng.chance(0.6) {
+                            ops.push(Op::S { k, ext: false, d: Datum::new(st[4 * k], ist(rng)) });
+                        }
+                        if self.conn[k] && rng.chance(0.6) {
+                            ops.push(Op::S { k, ext: true, d: Datum::new(st[4 * k + 1], ist(rng)) });
+                        }
+                        if rng.chance(0.4) {
+                            ops.push(Op::C { k, ext: false, d: Datum::new(st[4 * k + 2], Command::new(self.pd, rng.range_i64(-8, 8) as f32)) });
+                        }
+                        if self.conn[k] && rng.chance(0.4) {
+                            ops.push(Op::C { k, ext: true, d: Datum::new(st[4 * k + 3], Command::new(self.pd, rng.range_i64(-8, 8) as f32)) });
+                        }
+                    }
+                }
+                2 => {
+                    // every slot present, all with one and the same stamp (often an extreme one)
+                    let t = if rng.chance(0.6) { Time(*rng.pick(&EXTREME)) } else { self.stamp(rng) };
+                    for k in 0..n {
+                        ops.push(Op::S { k, ext: false, d: Datum::new(t, ist(rng)) });
+                        if self.conn[k] {
+                            ops.push(Op::S { k, ext: true, d: Datum::new(t, ist(rng)) });
+                        }
+                        ops.push(Op::C { k, ext: false, d: Datum::new(t, Command::new(self.pd, rng.range_i64(-8, 8) as f32)) });
+                    }
+                }
+                _ => {
+                    // values that satisfy the constraint exactly, one slot per terminal, different stamps
+                    let a = ist(rng);
+                    let b = ist(rng);
+                    let vals: Vec<State> = match self.kind {
+                        0 => vec![a, -a],
+                        1 => vec![a, a * self.ratio],
+                        2..=7 => vec![a; n],
+                        _ => vec![a, b, a + b],
+                    };
+                    for k in 0..n {
+                        let e = self.side(rng, k);
+                        ops.push(Op::S { k, ext: e, d: Datum::new(self.stamp(rng), vals[k]) });
+                    }
+                }
+            }
+            return ops;
+        }
+        // current value per terminal: own slot, else the connected external one
+        let cur: Vec<Option<State>> = (0..n).map(|k| own[k].0.map(|d| d.value).or(if self.conn[k] { ext[k].0.map(|d| d.value) } else { None })).collect();
+        // present state slots (terminal, external?)
+        let mut slots: Vec<(usize, bool, State)> = Vec::new();
+        for k in 0..n {
+            if let Some(d) = own[k].0 {
+                slots.push((k, false, d.value));
+            }
+            if self.conn[k] {
+                if let Some(d) = ext[k].0 {
+                    slots.push((k, true, d.value));
+                }
+            }
+        }
+        let count = if rng.chance(0.7) { 1 } else { 2 };
+        for _ in 0..count {
+            match rng.below(9) {
+                0..=1 if !slots.is_empty() => {
+                    // the bit-identical value again on the same slot
+                    let (k, e, v) = *rng.pick(&slots);
+                    ops.push(Op::S { k, ext: e, d: Datum::new(self.stamp(rng), v) });
+                }
+                2 => {
+                    // the partner reports exactly what the device terminal holds (or vice versa)
+                    let ks: Vec<usize> = (0..n).filter(|&k| self.conn[k] && (own[k].0.is_some() || ext[k].0.is_some())).collect();
+                    if !ks.is_empty() {
+                        let k = *rng.pick(&ks);
+                        match (own[k].0, ext[k].0) {
+                            (Some(d), _) if rng.chance(0.7) || ext[k].0.is_none() => ops.push(Op::S { k, ext: true, d: Datum::new(self.stamp(rng), d.value) }),
+                            (_, Some(d)) => ops.push(Op::S { k, ext: false, d: Datum::new(self.stamp(rng), d.value) }),
+                            _ => {}
+                        }
+                    }
+                }
+                3 => {
+                    // every partner agrees exactly with its device terminal
+                    for k in 0..n {
+                        if self.conn[k] {
+                            if let Some(d) = own[k].0 {
+                                ops.push(Op::S { k, ext: true, d: Datum::new(self.stamp(rng), d.value) });
+                            }
+                        }
+                    }
+                }
+                4..=6 if n >= 2 => {
+                    // exact constraint image of another terminal's value
+                    let src = rng.usize(n);
+                    let dst = (src + 1 + rng.usize(n - 1)) % n;
+                    if let Some(v) = self.image(src, dst, &cur) {
+                        let e = self.side(rng, dst);
+                        ops.push(Op::S { k: dst, ext: e, d: Datum::new(self.stamp(rng), v) });
+                        if e && own[dst].0.is_some() && rng.chance(0.5) {
+                            // and the same on the own slot so that the read is exactly the image
+                            ops.push(Op::S { k: dst, ext: false, d: Datum::new(self.stamp(rng), v) });
+                        }
+                    }
+                }
+                7 => {
+                    let k = rng.usize(n);
+                    let e = self.side(rng, k);
+                    ops.push(Op::S { k, ext: e, d: Datum::new(self.stamp(rng), ist(rng)) });
+                }
+                _ => {
+                    // a command: the same one again on a slot that has one, or a fresh one
+                    let k = rng.usize(n);
+                    let e = self.side(rng, k);
+                    let old = if e { ext[k].1 } else { own[k].1 };
+                    let v = match old {
+                        Some(d) if rng.chance(0.6) => d.value,
+                        _ => Command::new(self.pd, rng.range_i64(-8, 8) as f32),
+                    };
+                    ops.push(Op::C { k, ext: e, d: Datum::new(self.stamp(rng), v) });
+                }
+            }
+        }
+        ops
+    }
+}
 
 fn main() {
     let args = Args::parse();
     let mut rep = Report::new("C03", &args);
 
-    // ---- 1a. Datum operators, binary forms: exhaustive over 15x15 anchor pairs x form x payload
-    let reps = args.pick(2, 20);
+    // ---- 1a. Datum operators, binary forms: exhaustive over 15x15 anchor pairs x rhs value
+    // {0, -0, 1, -1, 2, 0.5, random} x lhs value {random, == rhs, special} x form x payload
+    let reps = args.pick(1, 10);
     let na = ANCHORS.len() as u64;
-    for idx in 0..reps * na * na {
+    for idx in 0..reps * na * na * 21 {
         if !args.mine("datum-binary", idx) {
             continue;
         }
-        let (i, j) = ((idx / na % na) as usize, (idx % na) as usize);
+        let (ri, lmode) = ((idx % 7) as usize, (idx / 7 % 3) as usize);
+        let (i, j) = ((idx / 21 / na % na) as usize, (idx / 21 % na) as usize);
         let mut rng = Rng::new(args.seed, 301, idx);
         let salt = rng.next_u64() as u32;
-        let mut ctx = Ctx { rep: &mut rep, sub: "datum-binary", case: idx };
-        datum_ops(&mut ctx, true, false, ANCHORS[i], ANCHORS[j], salt);
-        if rep.want_sample("datum-binary") {
-            rep.sample("datum-binary", format!("Datum(t={}) op Datum(t={}) for the 32 (Datum-rhs operator form x payload) cells, value family salt {:#x}", ANCHORS[i], ANCHORS[j], salt));
+        let v = Vals::enumerated(&mut rng, salt, ri, lmode);
+        let mut ctx = Ctx { rep: &mut rep, sub: "datum-binary", case: idx, vkey: ("", "", "") };
+        datum_ops(&mut ctx, true, false, ANCHORS[i], ANCHORS[j], salt, v);
+        if ri == 2 && rep.want_sample("datum-binary") {
+            rep.sample("datum-binary", format!("Datum(t={}) op Datum(t={}) for the 32 (Datum-rhs operator form x payload) cells, operand values {:?}", ANCHORS[i], ANCHORS[j], v));
         }
     }
-    rep.exhaustive("15x15 ordered anchor-stamp pairs (equal, adjacent +-1, negative, 0, +-2^62, i64::MIN/MAX) x every Datum-rhs operator impl of datum.rs x payload {f32,Quantity,State,Command}");
-    // ---- 1b. scalar / unary forms: exhaustive over the 15 anchors
-    let reps = args.pick(8, 200);
-    for idx in 0..reps * na {
+    rep.exhaustive("15x15 ordered anchor-stamp pairs (equal, adjacent +-1, negative, 0, +-2^62, i64::MIN/MAX) x rhs payload value {+0,-0,1,-1,2,0.5,random} x lhs value {random, bit-equal to rhs, special} x every Datum-rhs operator impl of datum.rs x payload {f32,Quantity,State,Command}");
+    // ---- 1b. scalar / unary forms: exhaustive over the 15 anchors x the same value classes
+    let reps = args.pick(2, 40);
+    for idx in 0..reps * na * 21 {
         if !args.mine("datum-scalar", idx) {
             continue;
         }
-        let i = (idx % na) as usize;
+        let (ri, lmode) = ((idx % 7) as usize, (idx / 7 % 3) as usize);
+        let i = (idx / 21 % na) as usize;
         let mut rng = Rng::new(args.seed, 302, idx);
         let salt = rng.next_u64() as u32;
-        let mut ctx = Ctx { rep: &mut rep, sub: "datum-scalar", case: idx };
-        datum_ops(&mut ctx, false, true, ANCHORS[i], 0, salt);
+        let v = Vals::enumerated(&mut rng, salt, ri, lmode);
+        let mut ctx = Ctx { rep: &mut rep, sub: "datum-scalar", case: idx, vkey: ("", "", "") };
+        datum_ops(&mut ctx, false, true, ANCHORS[i], 0, salt, v);
         if rep.want_sample("datum-scalar") {
-            rep.sample("datum-scalar", format!("Datum(t={}) op bare scalar / Neg / Not for the 37 (scalar or unary form x payload) cells", ANCHORS[i]));
+            rep.sample("datum-scalar", format!("Datum(t={}) op bare scalar / Neg / Not for the 37 (scalar or unary form x payload) cells, operand values {:?}", ANCHORS[i], v));
         }
     }
-    rep.exhaustive("15 anchor stamps x every scalar-rhs / Neg / Not operator impl of datum.rs x payload {f32,Quantity,State,Command,bool}");
-    // ---- 1c. random stamp pairs, all forms
+    rep.exhaustive("15 anchor stamps x scalar value {+0,-0,1,-1,2,0.5,random} x lhs value {random, equal, special} x every scalar-rhs / Neg / Not operator impl of datum.rs x payload {f32,Quantity,State,Command,bool}");
+    // ---- 1c. random stamp pairs and random / special operand values, all forms
     for case in args.cases("datum-random", 15_000, 1_000_000) {
         let mut rng = Rng::new(args.seed, 303, case);
         let (tl, tr) = draw_pair(&mut rng);
         let salt = rng.next_u64() as u32;
-        let mut ctx = Ctx { rep: &mut rep, sub: "datum-random", case };
-        datum_ops(&mut ctx, true, true, tl, tr, salt);
+        let v = Vals::random(&mut rng, salt);
+        let mut ctx = Ctx { rep: &mut rep, sub: "datum-random", case, vkey: ("", "", "") };
+        datum_ops(&mut ctx, true, true, tl, tr, salt, v);
         if rep.want_sample("datum-random") {
-            rep.sample("datum-random", format!("all 69 operator cells on stamps ({}, {})", tl, tr));
+            rep.sample("datum-random", format!("all 69 operator cells on stamps ({}, {}), operand values {:?}", tl, tr, v));
         }
     }
 
@@ -1041,7 +1504,7 @@ fn main() {
         let (i, j) = ((idx / na % na) as usize, (idx % na) as usize);
         let mut rng = Rng::new(args.seed, 304, idx);
         let salt = rng.next_u64() as u32;
-        let mut ctx = Ctx { rep: &mut rep, sub: "helpers", case: idx };
+        let mut ctx = Ctx { rep: &mut rep, sub: "helpers", case: idx, vkey: ("", "", "") };
         helpers_all(&mut ctx, ANCHORS[i], ANCHORS[j], salt);
         if rep.want_sample("helpers") {
             rep.sample("helpers", format!("slot stamp {} candidate stamp {}: latest() both argument orders, replace_if_older_than, replace_if_none_or_older_than(_option) on empty/full slot with Some/None candidate, 5 payloads", ANCHORS[i], ANCHORS[j]));
@@ -1052,7 +1515,7 @@ fn main() {
         let mut rng = Rng::new(args.seed, 305, case);
         let (tl, tr) = draw_pair(&mut rng);
         let salt = rng.next_u64() as u32;
-        let mut ctx = Ctx { rep: &mut rep, sub: "helpers-random", case };
+        let mut ctx = Ctx { rep: &mut rep, sub: "helpers-random", case, vkey: ("", "", "") };
         helpers_all(&mut ctx, tl, tr, salt);
         if rep.want_sample("helpers-random") {
             rep.sample("helpers-random", format!("slot stamp {} candidate stamp {}", tl, tr));
@@ -1073,7 +1536,7 @@ fn main() {
                     let mut rng = Rng::new(args.seed, 306, case);
                     let stamps = ladder(&mut rng, n, draw_any);
                     let salt = rng.next_u64() as u32;
-                    let mut ctx = Ctx { rep: &mut rep, sub: "latest-patterns", case };
+                    let mut ctx = Ctx { rep: &mut rep, sub: "latest-patterns", case, vkey: ("", "", "") };
                     match (rpt + pat) % 5 {
                         0 => check_latest::<f32>(&mut ctx, &pattern_events(n, pat, &stamps, salt)),
                         1 => check_latest::<Quantity>(&mut ctx, &pattern_events(n, pat, &stamps, salt)),
@@ -1104,7 +1567,7 @@ fn main() {
                     let k = rng.usize(n);
                     evs[k] = Ev::Err(1);
                 }
-                let mut ctx = Ctx { rep: &mut rep, sub: "latest-random", case };
+                let mut ctx = Ctx { rep: &mut rep, sub: "latest-random", case, vkey: ("", "", "") };
                 check_latest::<$P>(&mut ctx, &evs);
                 if rep.want_sample("latest-random") {
                     rep.sample("latest-random", format!("Latest<{},{}> inputs {:?}", <$P>::NAME, n, evs));
@@ -1120,38 +1583,43 @@ fn main() {
         }
     }
 
-    // ---- 4a. two-input streams: exhaustive anchors pairs x presence
+    // ---- 4a. two-input streams: exhaustive anchors pairs x presence x rhs value class
     let reps = args.pick(1, 6);
-    for idx in 0..reps * na * na * 4 {
+    for idx in 0..reps * na * na * 4 * 7 {
         if !args.mine("streams2", idx) {
             continue;
         }
         let pres = idx % 4;
-        let (i, j) = ((idx / 4 / na % na) as usize, (idx / 4 % na) as usize);
+        let ri = (idx / 4 % 7) as usize;
+        let (i, j) = ((idx / 28 / na % na) as usize, (idx / 28 % na) as usize);
         let mut rng = Rng::new(args.seed, 308, idx);
         let salt = rng.next_u64() as u32;
-        let mut ctx = Ctx { rep: &mut rep, sub: "streams2", case: idx };
-        two_input_streams(&mut ctx, pres, ANCHORS[i], ANCHORS[j], salt);
+        let lmode = rng.usize(3);
+        let v = Vals::enumerated(&mut rng, salt, ri, lmode);
+        let mut ctx = Ctx { rep: &mut rep, sub: "streams2", case: idx, vkey: ("", "", "") };
+        two_input_streams(&mut ctx, pres, ANCHORS[i], ANCHORS[j], salt, v);
         if pres == 3 && rep.want_sample("streams2") {
-            rep.sample("streams2", format!("Sum2/Difference x4 payloads, Product2/Quotient x2, Exponent, And/Or x4 value combos, Not on inputs Some(t={}), Some(t={})", ANCHORS[i], ANCHORS[j]));
+            rep.sample("streams2", format!("Sum2/Difference x4 payloads, Product2/Quotient x2, Exponent, And/Or x4 value combos, Not on inputs Some(t={}), Some(t={}) with values {:?}", ANCHORS[i], ANCHORS[j], v));
         }
     }
-    rep.exhaustive("15x15 anchor pairs x 4 input-presence combinations x {Sum2, DifferenceStream (f32,Quantity,State,Command), Product2, QuotientStream (f32,Quantity), ExponentStream, AndStream, OrStream (4 value combos), NotStream}");
+    rep.exhaustive("15x15 anchor pairs x 4 input-presence combinations x second-input value {+0,-0,1,-1,2,0.5,random} x {Sum2, DifferenceStream (f32,Quantity,State,Command), Product2, QuotientStream (f32,Quantity), ExponentStream, AndStream, OrStream (4 value combos), NotStream}");
     for case in args.cases("streams2-random", 15_000, 1_000_000) {
         let mut rng = Rng::new(args.seed, 309, case);
         let (tl, tr) = draw_pair(&mut rng);
         let pres = if rng.chance(0.7) { 3 } else { rng.below(4) };
         let salt = rng.next_u64() as u32;
-        let mut ctx = Ctx { rep: &mut rep, sub: "streams2-random", case };
-        two_input_streams(&mut ctx, pres, tl, tr, salt);
+        let v = Vals::random(&mut rng, salt);
+        let mut ctx = Ctx { rep: &mut rep, sub: "streams2-random", case, vkey: ("", "", "") };
+        two_input_streams(&mut ctx, pres, tl, tr, salt, v);
         if rep.want_sample("streams2-random") {
-            rep.sample("streams2-random", format!("all two-input streams, presence mask {:02b}, stamps ({}, {})", pres, tl, tr));
+            rep.sample("streams2-random", format!("all two-input streams, presence mask {:02b}, stamps ({}, {}), values {:?}", pres, tl, tr, v));
         }
     }
     // ---- 4b. SumStream / ProductStream arity 1..=4: exhaustive patterns
     {
         let mut idx = 0u64;
-        for _ in 0..args.pick(2, 40) {
+        for rpt in 0..args.pick(4, 40) {
+            let sp = rpt % 2 == 1;
             for n in 1..=4usize {
                 for pat in 0..(n as u64 + 1).pow(n as u32) {
                     let case = idx;
@@ -1162,49 +1630,56 @@ fn main() {
                     let mut rng = Rng::new(args.seed, 310, case);
                     let stamps = ladder(&mut rng, n, draw_any);
                     let salt = rng.next_u64() as u32;
-                    let mut ctx = Ctx { rep: &mut rep, sub: "nary-patterns", case };
-                    check_sum::<f32>(&mut ctx, &pattern_events(n, pat, &stamps, salt));
-                    check_sum::<Quantity>(&mut ctx, &pattern_events(n, pat, &stamps, salt));
-                    check_sum::<State>(&mut ctx, &pattern_events(n, pat, &stamps, salt));
-                    check_sum::<Command>(&mut ctx, &pattern_events(n, pat, &stamps, salt));
-                    check_prod::<f32>(&mut ctx, &pattern_events(n, pat, &stamps, salt));
-                    check_prod::<Quantity>(&mut ctx, &pattern_events(n, pat, &stamps, salt));
+                    let mut ctx = Ctx { rep: &mut rep, sub: "nary-patterns", case, vkey: ("", "", "") };
+                    check_sum::<f32>(&mut ctx, &pattern_events_v(n, pat, &stamps, salt, sp));
+                    check_sum::<Quantity>(&mut ctx, &pattern_events_v(n, pat, &stamps, salt, sp));
+                    check_sum::<State>(&mut ctx, &pattern_events_v(n, pat, &stamps, salt, sp));
+                    check_sum::<Command>(&mut ctx, &pattern_events_v(n, pat, &stamps, salt, sp));
+                    check_prod::<f32>(&mut ctx, &pattern_events_v(n, pat, &stamps, salt, sp));
+                    check_prod::<Quantity>(&mut ctx, &pattern_events_v(n, pat, &stamps, salt, sp));
                     if pat % 53 == 7 && rep.want_sample("nary-patterns") {
                         rep.sample("nary-patterns", format!("SumStream x4 payloads / ProductStream x2 payloads, arity {}, inputs {:?}", n, pattern_events::<f32>(n, pat, &stamps, salt)));
                     }
                 }
             }
         }
-        rep.exhaustive("SumStream (f32,Quantity,State,Command) and ProductStream (f32,Quantity) arity 1..=4: every assignment of {absent, rank 1..n} to the inputs (700 patterns)");
+        rep.exhaustive("SumStream (f32,Quantity,State,Command) and ProductStream (f32,Quantity) arity 1..=4: every assignment of {absent, rank 1..n} to the inputs (700 patterns), each with distinct random values and with values from {+0,-0,1,-1,2,0.5}");
     }
 
-    // ---- 5a. terminals: exhaustive presence (16) x connected (2) x moderate anchor pairs (11x11)
-    let nm = MOD.len() as u64;
+    // ---- 5a. terminals: exhaustive presence (16) x connected (2) x anchor pairs (15x15, extremes
+    // included: terminal reads only compare stamps), own/partner values in 4 relations
     let reps = args.pick(1, 10);
-    for idx in 0..reps * 32 * nm * nm {
+    for idx in 0..reps * 32 * na * na {
         if !args.mine("terminal", idx) {
             continue;
         }
         let m = idx % 32;
-        let (i, j) = ((idx / 32 / nm % nm) as usize, (idx / 32 % nm) as usize);
+        let (i, j) = ((idx / 32 / na % na) as usize, (idx / 32 % na) as usize);
         let mut rng = Rng::new(args.seed, 311, idx);
         let salt = rng.next_u64() as u32;
-        // states see the pair (i, j); commands the pair (j, i) shifted so that state and command
-        // stamps of a case differ (|shift| keeps everything within 2^40 + 3)
+        // own / partner payloads: distinct, bit-identical, exact negations, or special values
+        let (vo, vp, vmode) = match rng.below(4) {
+            0 => (State::make(salt, 0), State::make(salt, 1), "distinct"),
+            1 => (State::make(salt, 0), State::make(salt, 0), "identical"),
+            2 => (State::make(salt, 0), -State::make(salt, 0), "negated"),
+            _ => (State::from_val(salt, *rng.pick(&SPECIAL)), State::from_val(salt, *rng.pick(&SPECIAL)), "special"),
+        };
+        // states see the stamp pair (i, j), commands the pair (j, i)
         let s = TS {
             conn: m & 16 != 0,
-            own_s: if m & 1 != 0 { Some(Datum::new(Time(MOD[i]), State::make(salt, 0))) } else { None },
-            par_s: if m & 2 != 0 { Some(Datum::new(Time(MOD[j]), State::make(salt, 1))) } else { None },
-            own_c: if m & 4 != 0 { Some(Datum::new(Time(MOD[j] + 3), Command::make(salt, 2))) } else { None },
-            par_c: if m & 8 != 0 { Some(Datum::new(Time(MOD[i] + 3), Command::make(salt, 3))) } else { None },
+            own_s: if m & 1 != 0 { Some(Datum::new(Time(ANCHORS[i]), vo)) } else { None },
+            par_s: if m & 2 != 0 { Some(Datum::new(Time(ANCHORS[j]), vp)) } else { None },
+            own_c: if m & 4 != 0 { Some(Datum::new(Time(ANCHORS[j]), Command::make(salt, 2))) } else { None },
+            par_c: if m & 8 != 0 { Some(Datum::new(Time(ANCHORS[i]), Command::make(salt, 3))) } else { None },
         };
-        let mut ctx = Ctx { rep: &mut rep, sub: "terminal", case: idx };
+        let mut ctx = Ctx { rep: &mut rep, sub: "terminal", case: idx, vkey: ("", "", "") };
+        ctx.rep.distinct(("terminal-values", m, vmode, stratum(ANCHORS[i]), stratum(ANCHORS[j]), rel(ANCHORS[i], ANCHORS[j])));
         terminal_case(&mut ctx, &s);
         if m == 31 && rep.want_sample("terminal") {
             rep.sample("terminal", format!("{:?}", s));
         }
     }
-    rep.exhaustive("terminal: {own,partner} x {state,command} presence (16) x connected/unconnected x 11x11 moderate anchor stamp pairs");
+    rep.exhaustive("terminal: {own,partner} x {state,command} presence (16) x connected/unconnected x 15x15 anchor stamp pairs incl. i64::MIN/MAX and +-2^62");
     for case in args.cases("terminal-random", 40_000, 3_000_000) {
         let mut rng = Rng::new(args.seed, 312, case);
         let mask = rng.below(4);
@@ -1212,15 +1687,16 @@ fn main() {
         if rng.chance(0.8) {
             s.conn = true;
         }
-        let mut ctx = Ctx { rep: &mut rep, sub: "terminal-random", case };
+        let mut ctx = Ctx { rep: &mut rep, sub: "terminal-random", case, vkey: ("", "", "") };
         terminal_case(&mut ctx, &s);
         if rep.want_sample("terminal-random") {
             rep.sample("terminal-random", format!("{:?}", s));
         }
     }
 
-    // ---- 5b. devices: one update each, distinct stamps on every terminal slot
-    for case in args.cases("device", 12 * 4_000, 12 * 300_000) {
+    // ---- 5b. devices, one update: random scenario (distinct / tied / clustered-extreme stamps on
+    // every terminal slot; device updates only compare stamps)
+    for case in args.cases("device", 12 * 3_000, 12 * 250_000) {
         let kind = (case % 12) as usize;
         let round = case / 12;
         let n = kind_terms(kind);
@@ -1241,11 +1717,87 @@ fn main() {
             rng.below(full + 1)
         };
         let spec = scenario(&mut rng, n, mask);
-        let ratio = (rng.sign() * rng.log_uniform(0.25, 8.0)) as f32;
-        let mut ctx = Ctx { rep: &mut rep, sub: "device", case };
-        device_case(&mut ctx, kind, &spec, ratio);
+        let ratio = if rng.chance(0.3) { *rng.pick(&[1.0f32, -1.0, 2.0, 0.5]) } else { (rng.sign() * rng.log_uniform(0.25, 8.0)) as f32 };
+        let mut ctx = Ctx { rep: &mut rep, sub: "device", case, vkey: ("", "", "") };
+        device_case(&mut ctx, kind, &spec, ratio, "one-update");
         if round == 5 && rep.want_sample(KINDS[kind]) {
             rep.sample(KINDS[kind], format!("ratio {} scenario {:?}", ratio, spec));
+        }
+    }
+    // ---- 5c. devices, one update, every contributor carries the same stamp: exhaustive over
+    // device kind x anchor stamp x {every slot present, own slots only, partner slots only, random}
+    {
+        let reps = args.pick(2, 40);
+        for idx in 0..reps * 12 * na * 4 {
+            if !args.mine("device-uniform", idx) {
+                continue;
+            }
+            let kind = (idx % 12) as usize;
+            let a = (idx / 12 % na) as usize;
+            let pm = idx / 12 / na % 4;
+            let n = kind_terms(kind);
+            let mut rng = Rng::new(args.seed, 314, idx);
+            let t = Time(ANCHORS[a]);
+            let spec: Vec<TS> = (0..n)
+                .map(|_| {
+                    let (o, p) = match pm {
+                        0 => (true, true),
+                        1 => (true, false),
+                        2 => (false, true),
+                        _ => (rng.chance(0.6), rng.chance(0.6)),
+                    };
+                    TS {
+                        conn: p || rng.chance(0.5),
+                        own_s: if o { Some(Datum::new(t, ist(&mut rng))) } else { None },
+                        par_s: if p { Some(Datum::new(t, ist(&mut rng))) } else { None },
+                        own_c: if o { Some(Datum::new(t, Command::new(PositionDerivative::Velocity, rng.range_i64(-8, 8) as f32))) } else { None },
+                        par_c: if p { Some(Datum::new(t, Command::new(PositionDerivative::Velocity, rng.range_i64(-8, 8) as f32))) } else { None },
+                    }
+                })
+                .collect();
+            let ratio = *rng.pick(&[1.0f32, -1.0, 2.0, 0.5, 3.0]);
+            let mut ctx = Ctx { rep: &mut rep, sub: "device-uniform", case: idx, vkey: ("", "", "") };
+            device_case(&mut ctx, kind, &spec, ratio, "uniform-stamp");
+            if a == 0 && rep.want_sample("device-uniform") {
+                rep.sample("device-uniform", format!("{} ratio {} scenario {:?}", KINDS[kind], ratio, spec));
+            }
+        }
+        rep.exhaustive("device kind (12) x anchor stamp (15, incl. i64::MIN/MAX) carried by every slot x slot presence {all, own only, partner only, random}");
+    }
+    // ---- 5d. devices, histories of 2-4 updates: later rounds re-issue bit-identical / mirrored /
+    // exactly constraint-consistent values with newer stamps on one side; own slots are checked
+    // after every update
+    for case in args.cases("device-history", 12 * 2_500, 12 * 200_000) {
+        let kind = (case % 12) as usize;
+        let mut rng = Rng::new(args.seed, 315, case);
+        let rounds = 2 + rng.usize(3);
+        let mut h = Hist::new(&mut rng, kind, rounds);
+        let conn = h.conn.clone();
+        let ratio = h.ratio;
+        let template = TEMPLATES[h.template];
+        let mut log: Vec<Vec<Op>> = Vec::new();
+        let mut ctx = Ctx { rep: &mut rep, sub: "device-history", case, vkey: ("", "", "") };
+        {
+            let log = &mut log;
+            let rng = &mut rng;
+            run_history(
+                kind,
+                &conn,
+                ratio,
+                rounds,
+                &mut |round, own, ext| {
+                    let ops = h.ops(rng, round, own, ext);
+                    log.push(ops.clone());
+                    ops
+                },
+                &mut |o| {
+                    ctx.rep.tally("device_history_updates");
+                    check_round(&mut ctx, kind, &conn, ratio, template, o)
+                },
+            );
+        }
+        if case / 12 == 3 && rep.want_sample("device-history") {
+            rep.sample("device-history", format!("{} ratio {} connected {:?} template {}: writes per round {:?}", KINDS[kind], ratio, conn, template, log));
         }
     }
 
@@ -1272,6 +1824,17 @@ fn main() {
     }
     for k in KINDS.iter().take(8) {
         rep.floor(&format!("device_command_writes_checked/{}", k), 50);
+    }
+    rep.floor("device_history_updates", 10_000);
+    rep.floor("device_updates_checked/round1", 3_000);
+    rep.floor("device_updates_checked/round2", 1_000);
+    rep.floor("device_all_contributors_same_extreme_stamp", 500);
+    for (i, k) in KINDS.iter().enumerate() {
+        rep.floor(&format!("device_all_contributors_same_extreme_stamp/{}", k), 20);
+        if i != 2 {
+            // (an Axle<1> has a single read: nothing to be consistent with)
+            rep.floor(&format!("device_reads_exactly_consistent_with_different_stamps/{}", k), 20);
+        }
     }
     rep.finish(&args);
 }
